@@ -69,14 +69,24 @@ LOG_ENABLED = [True]  # switched off for vmapped runs (io_callback is not suppor
 HOSTLOCK = threading.Lock()
 
 
-def _host(name, seq, ts, st, acc, r0, r1):
+TOKEN = [0]           # every probe object gets its own token: a late log entry of an EARLIER graph's thread is told apart from this graph's entries
+
+
+def _host(name, seq, ts, st, acc, r0, r1, token=0):
     with HOSTLOCK:
-        HOSTLOG.append((name, int(seq), int(ts), int(st), int(acc), int(r0), int(r1)))
+        HOSTLOG.append((name, int(seq), int(ts), int(st), int(acc), int(r0), int(r1), token))
+
+
+def host_calls(N=None):
+    """the host log of the probes in N (all entries when N is None), without the token"""
+    toks = None if N is None else {getattr(n, "token", 0) for n in N.values()}
+    with HOSTLOCK: return [c[:7] for c in HOSTLOG if toks is None or len(c) < 8 or c[7] in toks]
 
 
 class Probe(BaseNode):
     def __init__(self, *a, nid=0, **k):
         super().__init__(*a, **k); self.nid = nid
+        TOKEN[0] += 1; self.token = TOKEN[0]
 
     def init_params(self, rng=None, graph_state=None):
         # only when the check asks for it (C09 params paths): params drawn from the rng handed to init_params, and used by the step
@@ -105,10 +115,10 @@ class Probe(BaseNode):
             pass
         elif isinstance(acc, jax.core.Tracer):
             from jax.experimental import io_callback
-            name = self.name
-            io_callback(lambda *a: _host(name, *a), None, ss.seq, tsq, ss.state.a[0], acc, rw[0], rw[1], ordered=True)
+            name = self.name; tok = self.token
+            io_callback(lambda *a: _host(name, *a, token=tok), None, ss.seq, tsq, ss.state.a[0], acc, rw[0], rw[1], ordered=True)
         else:
-            _host(self.name, ss.seq, tsq, ss.state.a[0], acc, rw[0], rw[1])
+            _host(self.name, ss.seq, tsq, ss.state.a[0], acc, rw[0], rw[1], token=self.token)
         sq = jnp.asarray(ss.seq, dtype=jnp.int32)
         fv = jnp.where(sq % 7 == 3, jnp.nan, jnp.where(sq % 11 == 5, jnp.inf, 0.25 * sq.astype(jnp.float32) + self.nid)).astype(jnp.float32).reshape(1)
         new_ss = ss.replace(state=Out(acc.reshape(1), ss.state.f), rng=new_rng)
@@ -272,7 +282,7 @@ def run_history(job):
         except TypeError as e:
             c = dict(error="record_unavailable:" + str(e)[:80])
         last_gs = gs
-        with HOSTLOCK: calls = list(HOSTLOG)
+        calls = host_calls(N)
         episodes.append(dict(record=c, obs=obs, info=info, eps=[int(n.eps) for n in g._async_nodes.values()], calls=calls))
     return dict(id=job["id"], node_phase=nph, conn_phase=cph, episodes=episodes)
 
@@ -356,7 +366,7 @@ def run_job(job):
                     if ">" in tgt:
                         o, i = tgt.split(">"); N[i].inputs[o].set_delay(delay=val * T)
                     else: N[tgt].set_delay(delay=val * T)
-            with HOSTLOCK: calls = list(HOSTLOG)
+            calls = host_calls(N)
             try:
                 r = g.get_record(); c = canon_record(cfg, r, rec)
             except TypeError as e:
